@@ -5,37 +5,42 @@
 set -u
 ID=$1; DIR=$2; shift 2
 CHECKS=${@:-$ID}
-export GOFLAGS=-mod=mod GOPROXY=off GOSUMDB=off GOTOOLCHAIN=local
+export GOPROXY=off GOSUMDB=off GOTOOLCHAIN=local
 WT=/tmp/seedcheck-$ID-$$
 git -C /repo worktree add -q $WT HEAD || exit 2
-cleanup() { git -C /repo worktree remove --force $WT; rm -f /verif/.work/alt-*; }
+cleanup() { git -C /repo worktree remove --force $WT; }
 trap cleanup EXIT
 cd $WT
 if ! git apply $DIR/patch.diff; then echo "RESULT $ID patch-does-not-apply"; exit 1; fi
-if ! go build ./... ; then echo "RESULT $ID does-not-build"; exit 1; fi
+if ! GOFLAGS= go build ./... ; then echo "RESULT $ID does-not-build"; exit 1; fi
 if [ "${SKIP_SUITE:-0}" != "1" ]; then
-  (GOFLAGS= go test -vet=off -count=1 ./... 2>&1; cd gcetcbendorsement && GOFLAGS= go test -vet=off -count=1 ./... 2>&1) | grep -v "no test files\|^ok" | grep -v "TestLoadKeys\|localkm\|^FAIL$\|Usage\|flags\|help for\|key_dir\|^$\|^Error: \|^  " | head -20 > /tmp/seedcheck-$ID-suite.txt
-  if [ -s /tmp/seedcheck-$ID-suite.txt ]; then echo "SUITE-OUTPUT (non-ok lines):"; cat /tmp/seedcheck-$ID-suite.txt; fi
+  S=$( (GOFLAGS= go test -vet=off -count=1 ./... 2>&1; cd gcetcbendorsement && GOFLAGS= go test -vet=off -count=1 ./... 2>&1) | grep -E "^(FAIL|--- FAIL|ok )" | grep -v "^ok " | grep -v "localkm\|TestLoadKeys\|^FAIL$" | head -10)
+  if [ -n "$S" ]; then echo "SUITE notices the change:"; echo "$S"; else echo "SUITE passes (apart from the known root-only localkm failure)"; fi
 fi
-# demonstration
-DEMO=$(python3 -c "import json;print(json.load(open('$DIR/meta.json')).get('demo_path',''))" 2>/dev/null)
-if [ -n "$DEMO" ] && [ -f "$DIR/$(basename $DEMO)" ]; then
-  cp "$DIR/$(basename $DEMO)" "$WT/$DEMO"
-  PKG=./$(dirname $DEMO)
-  MOD=.
-  case "$DEMO" in gcetcbendorsement/*) MOD=gcetcbendorsement; PKG=./$(dirname ${DEMO#gcetcbendorsement/});; esac
-  (cd $MOD && GOFLAGS= go test -vet=off -count=1 -run 'Seed|seed|Demo|demo' $PKG > /tmp/seedcheck-$ID-demo-with.txt 2>&1); W=$?
-  git apply -R $DIR/patch.diff
-  (cd $MOD && GOFLAGS= go test -vet=off -count=1 -run 'Seed|seed|Demo|demo' $PKG > /tmp/seedcheck-$ID-demo-without.txt 2>&1); WO=$?
-  git apply $DIR/patch.diff
-  rm -f "$WT/$DEMO"
-  echo "DEMO with-change rc=$W (want !=0), without rc=$WO (want 0)"
-else
-  echo "DEMO not run (demo_path missing in meta.json)"
-fi
+python3 /verif/tools/seed_norm.py $DIR > /tmp/seedcheck-$ID-demos.txt
+W=0; WO=0
+while read SRC REL; do
+  mkdir -p $(dirname $WT/$REL); cp $SRC $WT/$REL
+done < /tmp/seedcheck-$ID-demos.txt
+rundemos() {
+  local rc=0
+  while read SRC REL; do
+    MOD=.; PKG=./$(dirname $REL)
+    case "$REL" in gcetcbendorsement/*) MOD=gcetcbendorsement; PKG=./$(dirname ${REL#gcetcbendorsement/});; esac
+    (cd $MOD && GOFLAGS= go test -vet=off -count=1 -run 'Seed' $PKG >> /tmp/seedcheck-$ID-demo-$1.txt 2>&1) || rc=1
+  done < /tmp/seedcheck-$ID-demos.txt
+  return $rc
+}
+rm -f /tmp/seedcheck-$ID-demo-*.txt
+rundemos with; W=$?
+git apply -R $DIR/patch.diff
+rundemos without; WO=$?
+git apply $DIR/patch.diff
+while read SRC REL; do rm -f $WT/$REL; done < /tmp/seedcheck-$ID-demos.txt
+echo "DEMO with-change rc=$W (want 1), without rc=$WO (want 0)"
 cd /verif
 for C in $CHECKS; do
-  OUT=$(VERIF_REPO=$WT python3 run.py $C quick 2>&1)
+  OUT=$(GOFLAGS=-mod=mod VERIF_REPO=$WT python3 run.py $C quick 2>&1)
   RC=$?
-  echo "CHECK $C rc=$RC $(echo "$OUT" | grep -m1 -A1 'VIOLATION' | tr '\n' ' ' | cut -c1-400)"
+  echo "CHECK $C rc=$RC $(echo "$OUT" | grep -m1 -A1 'VIOLATION' | tr '\n' ' ' | cut -c1-420)"
 done
